@@ -205,9 +205,10 @@ def oracle_conform(cls, restored, pw, idA, idB, x):
                         nm, cls, p_, xx, msg.hex()[:40], want.hex()[:40]))
                 if restored:
                     a = K[cls].from_serialized(a.serialize(), params=params)
-                for yy in ((xx + 3) % q, 0, 1, q - 1):
+                first = (xx + 3) % q
+                for k_, yy in enumerate([first] + [y_ for y_ in (0, 1, q - 1) if y_ != first]):
                     inst = a
-                    if yy != (xx + 3) % q:
+                    if k_ > 0:              # finish() is single use: every further peer message gets its own instance
                         inst = mk(cls, xx)
                         inst.start()
                         if restored:
